@@ -204,3 +204,90 @@ Proof.
   replace (length (List.filter is_decoded aos) <? 2 * c_f cf + 1)%nat with false by (symmetry; apply Nat.ltb_ge; lia).
   unfold accept_observations. rewrite (accept_ignores_none (c_has_pred cf) aos). reflexivity.
 Qed.
+
+(* C06 / C04 on the wire: the vote laws (one byte-level event) and the handover laws (byte-level histories) *)
+Lemma last_map_local {A B} (f : A -> B) (l : list A) (d : A) : last (map f l) (f d) = f (last l d).
+Proof. induction l as [|x [|y r] IH]; cbn [map last]; try reflexivity. exact IH. Qed.
+Lemma removelast_map_local {A B} (f : A -> B) (l : list A) : removelast (map f l) = map f (removelast l).
+Proof. induction l as [|x [|y r] IH]; cbn [map removelast]; try reflexivity. f_equal. exact IH. Qed.
+
+Section WireVotes.
+  Context (h : Z -> chandef -> list Z) (check : list Z -> option (gmap Z Z)).
+  Local Notation dec := (dec_or_initial).
+  Local Notation aosb b := (map (obs_of_bytes check) (bv_obs b)).
+
+  (* a channel is added, replaced or removed between the bytes handed in and the bytes returned only with more than f
+     votes for exactly that change among the observation bytes that decode *)
+  Theorem def_change_needs_votes_on_the_wire cf b c :
+    check_typed check -> bvalid h check cf b ->
+    o_defs (dec cf (bv_next b)) !! c <> o_defs (dec cf (bv_prev b)) !! c ->
+    exists rr obs, accept_observations (c_has_pred cf) (aosb b) = Ok (rr, obs) /\
+      o_stage (dec cf (bv_prev b)) <> Retired /\ o_stage (dec cf (bv_next b)) <> Retired /\
+      ((o_defs (dec cf (bv_next b)) !! c = None /\ (c_f cf < remove_votes obs c)%nat) \/
+       (exists d, o_defs (dec cf (bv_next b)) !! c = Some d /\ (c_f cf < update_votes obs c d)%nat)).
+  Proof.
+    intros Hck Hv Hne. destruct (abs_valid h check cf b Hck Hv) as [Hseq Hstep]. cbn [abs_event ev_seq ev_aos ev_prev ev_next] in Hseq, Hstep.
+    exact (def_change_needs_votes h cf _ _ _ _ c Hseq Hstep Hne).
+  Qed.
+
+  Theorem stage_change_needs_votes_or_attestation_on_the_wire cf b :
+    check_typed check -> bvalid h check cf b ->
+    o_stage (dec cf (bv_next b)) <> o_stage (dec cf (bv_prev b)) ->
+    exists rr obs, accept_observations (c_has_pred cf) (aosb b) = Ok (rr, obs) /\
+      ((o_stage (dec cf (bv_prev b)) = Staging /\
+        (o_stage (dec cf (bv_next b)) = Production \/ (o_stage (dec cf (bv_next b)) = Retired /\ (c_f cf < retire_votes obs)%nat)) /\
+        c_has_pred cf = true /\ exists va ob, Some ob ∈ aosb b /\ ob_att ob = GoodAttest va) \/
+       (o_stage (dec cf (bv_prev b)) = Production /\ o_stage (dec cf (bv_next b)) = Retired /\ (c_f cf < retire_votes obs)%nat)).
+  Proof.
+    intros Hck Hv Hne. destruct (abs_valid h check cf b Hck Hv) as [Hseq Hstep]. cbn [abs_event ev_seq ev_aos ev_prev ev_next] in Hseq, Hstep.
+    exact (stage_change_needs_votes_or_attestation h cf _ _ _ _ Hseq Hstep Hne).
+  Qed.
+
+  (* C04, predecessor side, over byte-level histories: the validity start recorded in the last outcome bytes is where the
+     last report of c ended *)
+  Theorem retirement_value_is_last_end_on_the_wire cf bj rest c rj :
+    check_typed check -> Forall (bvalid h check cf) (bj :: rest) -> blinked (bj :: rest) -> rest <> [] ->
+    report_of cf (bv_seq bj) (dec cf (bv_next bj)) c rj ->
+    (forall b, In b (removelast rest) -> reportable cf (dec cf (bv_next b)) c = false) ->
+    (forall b, In b rest -> ~ promotion (abs_event check cf b) /\ ~ voted_out cf (abs_event check cf b) c) ->
+    o_va (dec cf (bv_next (last rest bj))) !! c = Some (trunc_va (c_pver cf) (r_ts rj)).
+  Proof.
+    intros Hck Hv Hl Hne Hrj Hnrep Hcond. destruct (abs_history h check cf _ Hck Hv Hl) as [Hv' Hl']. cbn [map] in Hv', Hl'.
+    pose proof (retirement_value_is_last_end h cf (abs_event check cf bj) (map (abs_event check cf) rest) c rj Hv' Hl') as H.
+    rewrite last_map_local in H. cbn [abs_event ev_next ev_seq] in H. apply H.
+    - destruct rest; [congruence|discriminate].
+    - exact Hrj.
+    - intros e He. rewrite removelast_map_local in He. apply elem_of_list_In, in_map_iff in He. destruct He as (b & <- & Hb). exact (Hnrep b Hb).
+    - intros e He. apply elem_of_list_In, in_map_iff in He. destruct He as (b & <- & Hb). exact (Hcond b Hb).
+  Qed.
+
+  (* C04, successor side: promotion on the wire adopts the attested validity starts *)
+  Theorem promotion_adopts_on_the_wire cf b :
+    check_typed check -> bvalid h check cf b -> promotion (abs_event check cf b) ->
+    exists rva ob, Some ob ∈ aosb b /\ ob_att ob = GoodAttest rva /\ c_has_pred cf = true /\
+      (rva <> ∅ -> forall c v, rva !! c = Some v -> ~ voted_out cf (abs_event check cf b) c ->
+         o_va (dec cf (bv_next b)) !! c = Some (trunc_va (c_pver cf) v)).
+  Proof.
+    intros Hck Hv Hp. exact (promotion_adopts h cf (abs_event check cf b) (abs_valid h check cf b Hck Hv) Hp).
+  Qed.
+
+  Theorem handover_start_on_the_wire cf bp rest c v rq rva :
+    check_typed check -> Forall (bvalid h check cf) (bp :: rest) -> blinked (bp :: rest) ->
+    promotion (abs_event check cf bp) ->
+    (exists ob, Some ob ∈ aosb bp /\ ob_att ob = GoodAttest rva) ->
+    (forall rr obs, accept_observations (c_has_pred cf) (aosb bp) = Ok (rr, obs) -> rr = Some rva) ->
+    rva <> ∅ -> rva !! c = Some v ->
+    ~ voted_out cf (abs_event check cf bp) c ->
+    (forall b, In b rest -> ~ promotion (abs_event check cf b) /\ ~ voted_out cf (abs_event check cf b) c) ->
+    (forall b, In b (removelast (bp :: rest)) -> reportable cf (dec cf (bv_next b)) c = false) ->
+    report_of cf (bv_seq (last rest bp)) (dec cf (bv_next (last rest bp))) c rq ->
+    r_va rq = trunc_va (c_pver cf) v.
+  Proof.
+    intros Hck Hv Hl Hp Hob Hrr Hne Hlk Hnv Hcond Hnrep Hrq. destruct (abs_history h check cf _ Hck Hv Hl) as [Hv' Hl']. cbn [map] in Hv', Hl'.
+    apply (handover_start h cf (abs_event check cf bp) (map (abs_event check cf) rest) c v rq rva Hv' Hl' Hp Hob Hrr Hne Hlk Hnv).
+    - intros e He. apply elem_of_list_In, in_map_iff in He. destruct He as (b & <- & Hb). exact (Hcond b Hb).
+    - intros e He. change (abs_event check cf bp :: map (abs_event check cf) rest) with (map (abs_event check cf) (bp :: rest)) in He.
+      rewrite removelast_map_local in He. apply elem_of_list_In, in_map_iff in He. destruct He as (b & <- & Hb). exact (Hnrep b Hb).
+    - rewrite last_map_local. exact Hrq.
+  Qed.
+End WireVotes.
